@@ -29,11 +29,12 @@ def field_id(v):
 
 
 class Cap:
-    def __init__(self, const=None, syms=(), fields=(), desc=""):
+    def __init__(self, const=None, syms=(), fields=(), desc="", alts=()):
         self.const = const
         self.syms = list(syms)        # SSA values (bytes)
         self.fields = set(fields)     # field identities (bytes)
         self.desc = desc
+        self.alts = list(alts)        # allocation sites with different sizes: a bound must hold for each of them
 
     def __repr__(self):
         parts = []
@@ -295,6 +296,10 @@ class Bounder:
         fid = field_id(u)
         if fid and fid in Q.fields:
             return True
+        if fid and Q.fields:
+            for (F, G) in field_invariants(self.prog):
+                if F == fid and G in Q.fields:
+                    return True
         return False
 
     # ---- the judgement
@@ -574,20 +579,138 @@ class Bounder:
         return self.f.reaches(s.bb, l.bb)
 
 
+def field_invariants(prog):
+    """{(F, G)}: object invariants  obj.F <= obj.G  between two integer fields.  Source: a function that allocates n
+    bytes and publishes, through a second out-parameter, only sizes that never exceed n (0, n itself, or values the
+    bound engine proves <= n); a call binds the out-parameter to &obj->F and n to obj->G.  Kept only if every other
+    store to F in the program is 0 or a copy of the same field, and G is stored only into freshly allocated objects."""
+    if getattr(prog, "_field_inv", None) is not None:
+        return prog._field_inv
+    prog._field_inv = set()          # recursion guard: the bound engine consults the invariants
+    cand = set()
+    for f in prog.functions():
+        if f.decl:
+            continue
+        allocs = [c for c in f.calls() if norm_callee(c.callee) in ALLOC_FNS]
+        for al in allocs:
+            nm = norm_callee(al.callee)
+            raw = [al.ops[k] for k in ALLOC_FNS[nm] if k < len(al.ops) and not al.ops[k].is_const]
+            if len(raw) != 1 or not _uncast(raw[0]).is_arg:
+                continue
+            m = _uncast(raw[0])
+            for q in f.params:
+                if not q.ty.endswith("*"):
+                    continue
+                sts = [j for j in f.insts() if j.op == "store" and strip_casts(j.ops[1]) is q]
+                if not sts or any((getattr(j.ops[0], "ty", "") or j.x.get("vt", "")).endswith("*") for j in sts):
+                    continue
+                Bq = Bounder(prog, f)
+                capq = Cap(syms=[raw[0]], desc="allocation size")
+                if not all((j.ops[0].is_const and j.ops[0].is_int and j.ops[0].uval == 0) or Bq.is_cap(j.ops[0], capq) or
+                           Bq.bounded(j.ops[0], j, capq) for j in sts):
+                    continue
+                for cs in prog.callers_of(f):
+                    if q.idx >= len(cs.ops) or m.idx >= len(cs.ops):
+                        continue
+                    tq = strip_casts(cs.ops[q.idx])
+                    G = field_id(cs.ops[m.idx])
+                    if G and tq.is_inst and tq.op == "getelementptr" and tq.field():
+                        sq, nq = tq.field()
+                        F = "%s.%s" % (re.sub(r"\.\d+$", "", sq).replace("struct.", ""), nq)
+                        if F.split(".")[0] == G.split(".")[0]:
+                            cand.add((F, G))
+    if cand:
+        bad = set()
+        for f in prog.functions():
+            for i in f.insts():
+                if i.op != "store":
+                    continue
+                p = strip_casts(i.ops[1])
+                if not (p.is_inst and p.op == "getelementptr" and p.field()):
+                    continue
+                sn, n = p.field()
+                fid = "%s.%s" % (re.sub(r"\.\d+$", "", sn).replace("struct.", ""), n)
+                for (F, G) in cand:
+                    if fid == F:
+                        v = i.ops[0]
+                        if not ((v.is_const and v.is_int and v.uval == 0) or field_id(v) == F):
+                            bad.add((F, G))
+                    elif fid == G:
+                        base = strip_casts(p.ops[0])
+                        if _alloc_of(prog, f, base) is None:
+                            bad.add((F, G))
+        cand -= bad
+    prog._field_inv = cand
+    return cand
+
+
 def field_capacity(prog, sname, fname):
     """capacity of the buffer a pointer field (or flexible member) designates, from its allocation sites program-wide:
-    Cap with field identities / constants.  None if no allocation site is found."""
-    consts, fields = [], set()
-    found = False
+    Cap with field identities / constants; sites whose sizes are described differently become alternatives (a bound
+    has to hold for every one of them).  None if no allocation site is found."""
+    sites = []
+    desc = "%s.%s" % (sname.replace("struct.", ""), fname)
+
+    def add_site(fn, sizes, where):
+        consts, fields = [], set()
+        _collect_size(prog, fn, sizes, consts, fields)
+        sites.append(Cap(const=min(consts) if consts and not fields else None, fields=fields,
+                         desc="%s @%s" % (desc, where)))
+
     for f in prog.functions():
         for i in f.insts():
             if i.op != "store":
                 continue
             p = strip_casts(i.ops[1])
+            if p.is_arg:
+                # allocation handed out through a pointer parameter:  *out = alloc(n)  with  f(..., &obj->field)
+                v = strip_casts(i.ops[0])
+                al = _alloc_of(prog, f, v) if not (v.is_const and v.is_null) else None
+                if al is None or al.op == "alloca":
+                    continue
+                for cs in prog.callers_of(f):
+                    if p.idx >= len(cs.ops):
+                        continue
+                    t = strip_casts(cs.ops[p.idx])
+                    if not (t.is_inst and t.op == "getelementptr" and t.field()):
+                        continue
+                    s_, n_ = t.field()
+                    if re.sub(r"\.\d+$", "", s_) != sname or n_ != fname:
+                        continue
+                    nm = norm_callee(al.callee)
+                    sizes = []
+                    for k in ALLOC_FNS[nm]:
+                        if k >= len(al.ops):
+                            continue
+                        a = al.ops[k]
+                        ua = _uncast(a)
+                        if ua.is_arg and ua.idx < len(cs.ops):
+                            a = cs.ops[ua.idx]
+                        sizes.append(a)
+                    add_site(cs.fn, sizes, "%s:%d via %s" % (cs.file, cs.line, f.name))
+                    # a second out-parameter through which the same function publishes a size that never exceeds
+                    # the allocation: the field it is bound to is a valid lower bound of the capacity, too
+                    raw = [al.ops[k] for k in ALLOC_FNS[nm] if k < len(al.ops) and not al.ops[k].is_const]
+                    if len(raw) == 1:
+                        for q in f.params:
+                            if q is p or not q.ty.endswith("*") or q.idx >= len(cs.ops):
+                                continue
+                            sts = [j for j in f.insts() if j.op == "store" and strip_casts(j.ops[1]) is q]
+                            if not sts or any((getattr(j.ops[0], "ty", "") or j.x.get("vt", "")).endswith("*") for j in sts):
+                                continue
+                            Bq = Bounder(prog, f)
+                            capq = Cap(syms=[raw[0]], desc="allocation size")
+                            if all((j.ops[0].is_const and j.ops[0].is_int and j.ops[0].uval == 0) or
+                                   Bq.is_cap(j.ops[0], capq) or Bq.bounded(j.ops[0], j, capq) for j in sts):
+                                tq = strip_casts(cs.ops[q.idx])
+                                if tq.is_inst and tq.op == "getelementptr" and tq.field():
+                                    sq, nq = tq.field()
+                                    sites[-1].fields.add("%s.%s" % (re.sub(r"\.\d+$", "", sq).replace("struct.", ""), nq))
+                continue
             if not (p.is_inst and p.op == "getelementptr" and p.field()):
                 continue
-            s, n = p.field()
-            if re.sub(r"\.\d+$", "", s) != sname or n != fname:
+            s_, n_ = p.field()
+            if re.sub(r"\.\d+$", "", s_) != sname or n_ != fname:
                 continue
             v = strip_casts(i.ops[0])
             if v.is_const and v.is_null:
@@ -597,13 +720,27 @@ def field_capacity(prog, sname, fname):
                 if v.is_inst and v.op == "load":
                     continue     # copied pointer (e.g. bit copy): not an allocation site
                 return None
-            found = True
             nm = norm_callee(al.callee)
             sizes = [al.ops[k] for k in ALLOC_FNS[nm] if k < len(al.ops)]
-            _collect_size(prog, f, sizes, consts, fields)
-    if not found:
+            add_site(f, sizes, "%s:%d" % (i.file, i.line))
+    if not sites:
         return None
-    return Cap(const=min(consts) if consts and not fields else None, fields=fields, desc="%s.%s" % (sname.replace("struct.", ""), fname))
+    # merge sites that are described alike
+    uniq = []
+    for c in sites:
+        for u in uniq:
+            if u.const == c.const and u.fields == c.fields:
+                break
+        else:
+            uniq.append(c)
+    if len(uniq) == 1:
+        u = uniq[0]
+        return Cap(const=u.const, fields=u.fields, desc=desc)
+    allf = set()
+    for u in uniq:
+        allf |= u.fields
+    consts = [u.const for u in uniq if u.const is not None]
+    return Cap(const=min(consts) if consts and not allf else None, fields=allf, desc=desc, alts=uniq)
 
 
 def _collect_size(prog, f, sizes, consts, fields):
@@ -618,6 +755,30 @@ def _collect_size(prog, f, sizes, consts, fields):
     if not syms:
         consts.append(c)
         return
+    # a product computed beforehand (size * count, also through the overflow-checked multiplication): its factors
+    flat = []
+    work = list(syms)
+    while work:
+        s = work.pop()
+        u = _uncast(s)
+        if u.is_inst and u.op == "mul":
+            work += list(u.ops)
+            continue
+        if u.is_inst and u.op == "extractvalue" and u.x.get("idx") == [0] and u.ops[0].is_inst and u.ops[0].op == "call" \
+                and (u.ops[0].callee or "").startswith("llvm.umul.with.overflow"):
+            work += list(u.ops[0].ops[:2])
+            continue
+        if u.is_inst and u.op == "load":
+            p = strip_casts(u.ops[0])
+            if p.is_inst and p.op == "alloca":
+                sts = [x for x in f.uses.get(p, []) if x.op == "store" and strip_casts(x.ops[1]) is p]
+                if len(sts) == 1 and f.inst_dominates(sts[0], u):
+                    work.append(sts[0].ops[0])
+                    continue
+        if u.is_const and u.is_int:
+            continue
+        flat.append(s)
+    syms = flat
     for s in syms:
         fid = field_id(s)
         if fid:
